@@ -91,6 +91,9 @@ ax("mem-TD", L.FA([v, t], z3.Implies(kind(t) == K["TD"],
 
 # ---- what get_type's tests observe
 _BUILTIN_CALLABLES = "monkeytype.typing:_BUILTIN_CALLABLE_TYPES"
+# the interpreter's own callable types (Python-level and C-level): is_callable_obj(v) abstracts "type(v) is a subclass of one of them"
+_CALLABLE_TYPE_NAMES = ("types.FunctionType", "types.LambdaType", "types.MethodType", "types.BuiltinMethodType", "types.BuiltinFunctionType",
+                        "types.MethodDescriptorType", "types.WrapperDescriptorType", "types.MethodWrapperType", "types.ClassMethodDescriptorType")
 
 
 def _val_isinstance(ip, r, a, kw, node):
@@ -107,7 +110,7 @@ def _val_isinstance(ip, r, a, kw, node):
             return ZB(is_generator_obj(r.term))
         if c.path == "builtins.str":
             return ZB(is_strval(r.term))
-        if c.path in ("types.FunctionType", "types.LambdaType", "types.MethodType", "types.BuiltinMethodType", "types.BuiltinFunctionType"):
+        if c.path in _CALLABLE_TYPE_NAMES:
             return ZB(is_callable_obj(r.term))
     raise Unsupported("isinstance(Val, %r)" % (c,))
 
@@ -171,7 +174,7 @@ def _getmro(ip, a, kw, node):
 
 
 _TYPE_PREDS = {"builtins.type": lambda o: TY.is_class(o), "types.GeneratorType": lambda o: is_generator_obj(o)}
-for _n in ("types.FunctionType", "types.LambdaType", "types.MethodType", "types.BuiltinMethodType", "types.BuiltinFunctionType"):
+for _n in _CALLABLE_TYPE_NAMES:
     _TYPE_PREDS[_n] = lambda o: is_callable_obj(o)
 
 
